@@ -248,6 +248,7 @@ def _descriptions():
         ('PDA', 'ill-formed label (too long)', 'initial q0\nq0 q0 a,_xy', None),
         ('PDA', 'ill-formed label (too short)', 'initial q0\nq0 q0 a,x', None),
         ('PDA', 'no initial state', 'final q0\nq0 q0 a,_x', None),
+        ('PDA', 'two initial states', 'initial q0 q1\nq0 q1 a,_x', None),
         ('PDA', 'stack_symbols declared twice', 'stack_symbols x\nstack_symbols x\ninitial q0\nq0 q0 a,_x', None),
         ('PDA', 'undeclared state', 'states q0\ninitial q0\nq0 q1 a,_x', None),
     ]
@@ -257,6 +258,7 @@ def _descriptions():
         ('TM', 'ill-formed direction', 'initial q0\naccept qa\nreject qr\nq0 qa ax,S', None),
         ('TM', 'ill-formed label (no comma)', 'initial q0\naccept qa\nreject qr\nq0 qa axR', None),
         ('TM', 'no initial state', 'accept qa\nreject qr\nq0 qa ax,R', None),
+        ('TM', 'two initial states', 'initial q0 q1\naccept qa\nreject qr\nq0 qa ax,R\nq1 qa ax,R', None),
         ('TM', 'accept declared twice', 'initial q0\naccept qa\naccept qa\nreject qr\nq0 qa ax,R', None),
         ('TM', 'undeclared state', 'states q0 qa qr\ninitial q0\naccept qa\nreject qr\nq0 q1 ax,R', None),
     ]
@@ -586,6 +588,7 @@ def _invariant_cases():
     C += [
         ('DFA', 'a valid DFA', [{'p', 'q'}, {'a'}, dict(dd), 'p', {'q'}], True),
         ('DFA', 'states named after sets and pairs, multi-character symbol names avoided', [{'{p,q}', '(p,q)'}, {'a'}, {('{p,q}', 'a'): '(p,q)', ('(p,q)', 'a'): '(p,q)'}, '{p,q}', {'(p,q)'}], True),
+        ('DFA', 'states named after sets of sets and pairs of pairs (what minimising or multiplying a computed automaton gives)', [{'{{p,q},{r}}', '((p,q),r)'}, {'a'}, {('{{p,q},{r}}', 'a'): '((p,q),r)', ('((p,q),r)', 'a'): '((p,q),r)'}, '{{p,q},{r}}', {'((p,q),r)'}], True),
         ('DFA', 'empty alphabet, no accepting state', [{'p'}, set(), {}, 'p', set()], True),
         ('DFA', 'digits and punctuation as symbols', [{'p'}, {'0', '#'}, {('p', '0'): 'p', ('p', '#'): 'p'}, 'p', {'p'}], True),
         ('DFA', 'the initial state is not a state', [{'p', 'q'}, {'a'}, dict(dd), 'x', {'q'}], False),
